@@ -16,6 +16,7 @@ Definition z_invert : list zconstr -> option (res (list zconstr)) := invert Z Z.
 Definition z_normalize : list zconstr -> list Z -> res (list zconstr) := normalize Z Z.compare.
 Definition z_from_versions : list Z -> res (list zconstr) := from_versions Z Z.compare.
 Definition z_nonvacuous : list zconstr -> bool := nonvacuous Z Z.compare.
+Definition z_simplify : list zconstr -> res (list zconstr) := simplify Z Z.compare.
 Definition z_mem : list zconstr -> Z -> bool := mem Z Z.compare.
 
 (* ---- class-level dispatch (C14, C12) ---- *)
